@@ -655,6 +655,41 @@ def run(ctx):
         if n < 4:
             raise AnchorMissing("collection recognisers: expected at least 4 element feeds whose value is kept (Vec x2, HashMap key/value), found %d" % n)
 
+    with ctx.rule("C16.R13", "T5", "an absent delegated body: every form a writer produces is accepted by the reader of an optional body", floor=3) as r:
+        # `#[form(body)] v: Option<T>` with v = None. The Recon printers write nothing after the attributes (an empty body); the model writer and the
+        # MessagePack path present a body holding one empty item. The recogniser of an optional body (EmptyBodyRecognizer) must accept every form
+        # some writer produces, or `to model and back` / `MessagePack and back` fail for None.
+        forms = {}
+        mw = ctx.saw(f.fn(name="with_delegate_body", self_adt="to_model::ValueInterpreter"))
+        sw = [si for si in mw.switches_on(lambda p, si: True) if si.get("kind") == "disc" and (si.get("adt") or "").endswith("value::Value")]
+        if not sw:
+            raise AnchorMissing("ValueInterpreter::with_delegate_body: no match on the body value")
+        ve = mw.variant_edges(sw[0]["block"])
+        wraps = {c.block for c in mw.calls if c.name == "of" and "Item" in (c.defpath or "")}
+        te = ve.get("Extant")
+        forms["model writer"] = "item" if (te in wraps or any(mw.reaches(te, {w}) for w in wraps)) else "nothing"
+        mp = ctx.crate("swimos_msgpack")
+        rb = ctx.saw(mp.fn(suffix="reader::read_record_body"))
+        msw = [si for si in rb.switches_on(lambda p, si: True) if si.get("kind") == "disc" and (si.get("adt") or "").endswith("Marker")]
+        nv = rb.variant_edges(msw[0]["block"]).get("Null") if msw else None
+        if nv is None:
+            raise AnchorMissing("msgpack read_record_body: no arm for the nil marker")
+        nil_calls = [c for c in rb.calls if c.block == nv or rb.dominates(nv, c.block)]
+        forms["MessagePack (nil in the body position)"] = "item" if any("ReadEvent::Extant" in describe_operand(rb, a) for c in nil_calls for a in c.args) else "nothing"
+        forms["Recon printers"] = "nothing"
+        eb = ctx.saw(f.fn(name="feed_event", self_adt="impls::EmptyBodyRecognizer"))
+        accepted = {"nothing"}
+        nones = {i_ for i_, j_, p_, rv, line in eb.assigns() if describe_rvalue(eb, rv).startswith("Option::None")}
+        for si in eb.switches_on(lambda p, si: True):
+            if si.get("kind") == "disc" and (si.get("adt") or "").endswith("event::ReadEvent"):
+                e_ve = eb.variant_edges(si["block"])
+                t = e_ve.get("Extant")
+                if t is not None and "EndRecord" in e_ve and e_ve["EndRecord"] != t and t != si.get("otherwise") and (t in nones or any(eb.reaches(t, {n_}) for n_ in nones)) and e_ve.get("TextValue") != t:
+                    accepted.add("item")
+        for w, form in sorted(forms.items()):
+            r.check(form in accepted, "absent-body/%s" % w.split(" ")[0], where(eb), "%s writes %s: accepted" % (w, "a single empty item" if form == "item" else "an empty body"),
+                    "%s presents an absent delegated body as %s, which the recogniser of an optional body rejects: a struct with `#[form(body)] v: Option<T>` and v = None cannot be read back on that path" % (w, "a body holding one empty item" if form == "item" else "an empty body"))
+
     with ctx.rule("C16.R11", "T12", "struct recognisers: an event that is accepted without being handed on moves the machine (no state accepts unboundedly many empty items)", floor=4) as r:
         # The model path sees `@Tag(,)` as an attribute whose value is a record of two empty items and rejects it for a struct without header fields;
         # a recogniser that answers "more" to an Extant and stays where it is accepts any number of them: the two reading paths disagree.
